@@ -4,7 +4,7 @@ from pw_verif.props._machine import run_program_case, worker_init  # noqa: F401
 
 PROP = "C05"
 LEVEL = "exploration"
-BUDGET = {"quick": 640, "thorough": 8000}
+BUDGET = {"quick": 960, "thorough": 8000}
 MIN_PER_SHARD = 10
 RULE = (
     "Worlds/layouts/states and forced-branch measurements as in C04, followed by 0-3 further generated steps "
